@@ -1,4 +1,5 @@
 import Pds.Proofs.KernelTie.ReservoirAdd
+import Pds.Proofs.KernelTie.ReservoirExtend
 import Pds.Props.C18
 /-!
 # C18 — tie by translation (flow mode): `ReservoirSampling::add` and `clear`
